@@ -228,6 +228,120 @@ class Crate:
                 body = ''.join(gen.derive_block(entry, op, variant, entry.get('extra_attrs', '')) for op in ops)
                 self.mods.append(f'pub mod m_{entry["name"]}_{variant} {{\n    #![allow(non_camel_case_types, non_snake_case, dead_code, deprecated)]\n{scal}\n{body}}}\n')
 
+    def scalar_mod(self):
+        seen = {}
+        for e in self.entries:
+            for k, v in e.get('scalars', {}).items():
+                seen.setdefault(k, v)
+        return '\n'.join(f'    pub type {k} = {v};' for k, v in seen.items())
+
+    def add_relational_harnesses(self, prop, pairs):
+        """C09: the same payload / assignment through two option variants of the same operation gives the same verdict"""
+        for entry in self.entries:
+            schema, doc = entry['_schema'], entry['_doc']
+            b = gen.Builder(schema, doc, entry, self.tier)
+            for op in self.ops_for(entry, 'response'):
+                bn = f'resp_{entry["name"]}_{gen.snake(op.name)}'
+                try:
+                    code, sites = b.response_builder(op, f'b_{bn}')
+                except gen.Unsupported as ex:
+                    self.skipped.append((entry['name'], op.name, 'response', str(ex)))
+                    continue
+                if not any(f'fn b_{bn}<' in m for m in self.mods):
+                    self.mods.append(code)
+                evl = max([len(v) for en in used_enums(schema, doc, op) for v in schema.get(en).values] + [0])
+                unwind = max(max_selset(schema, op.sels) + 3, b.maxlist + 2, b.strlen + 2, evl + 2, max_keylen(op.sels) + 2)
+                for va, vb in pairs(entry):
+                    if va in entry.get('skip_variants', []) or vb in entry.get('skip_variants', []) or va not in entry['variants'] + ['opts'] or vb not in entry['variants'] + ['opts']:
+                        continue
+                    ta, tb = self.tpath(entry, va, op, 'ResponseData'), self.tpath(entry, vb, op, 'ResponseData')
+                    hn = f'rel_{bn}_{va}_{vb}'
+                    self.mods.append(f'''
+#[cfg(kani)]
+#[kani::proof]
+#[kani::unwind({unwind})]
+fn k_{prop}_{hn}() {{
+    let (va, vb, conf) = b_{bn}(&mut KaniSrc, |sv, c| (check_roundtrip::<{ta}>(sv, c, false), check_roundtrip::<{tb}>(sv, c, false), c));
+    kani::cover!(conf && va == Verdict::Ok, "witness_conforming");
+    kani::cover!(!conf && va == Verdict::Ok, "witness_corrupted");
+    assert!(va == vb);
+}}
+''')
+                    self.harnesses.append(dict(name=f'k_{prop}_{hn}', prop=prop, kind='relational', entry=entry['name'], native=f'n_{hn}',
+                                               what=f'{op.name} ResponseData under `{va}` vs `{vb}`', covers=2, unwind=unwind))
+                    self.native.append((f'n_{hn}', f'''b_{bn}(src, |sv, c| {{
+    let (ra, da) = check_roundtrip_native::<{ta}>(sv, c, false);
+    let (rb, db) = check_roundtrip_native::<{tb}>(sv, c, false);
+    let ma = check_roundtrip::<{ta}>(sv, c, false);
+    let mb = check_roundtrip::<{tb}>(sv, c, false);
+    let model = if ma == mb {{ "Ok".to_string() }} else {{ format!("Differ({{:?}},{{:?}})", ma, mb) }};
+    let real = if ra == rb {{ "Ok".to_string() }} else {{ format!("Differ({{:?}},{{:?}})", ra, rb) }};
+    (model, real, format!("{{}} || {{}}", da, db))
+}})'''))
+
+    def add_envelope_harnesses(self, prop):
+        """C15: graphql_client::Response<T> over a symbolic spec-shaped body, T = a plain generated ResponseData"""
+        for entry in self.entries:
+            schema, doc = entry['_schema'], entry['_doc']
+            b = gen.Builder(schema, doc, entry, self.tier)
+            for op in entry['_ops']:
+                if op.name not in entry.get('envelope_ops', []):
+                    continue
+                bn = f'resp_{entry["name"]}_{gen.snake(op.name)}'
+                if not any(f'fn b_{bn}<' in m for m in self.mods):
+                    code, _sites = b.response_builder(op, f'b_{bn}')
+                    self.mods.append(code)
+                t = self.tpath(entry, 'base', op, 'ResponseData')
+                unwind = max(max_selset(schema, op.sels) + 3, b.maxlist + 2, 8 + 2, max_keylen(op.sels) + 2, 12)
+                for ext in ('absent', 'null'):
+                    hn = f'env_{bn}_{ext}'
+                    ext_sv = 'SV::absent()' if ext == 'absent' else 'SV::null()'
+                    self.mods.append(f'''
+pub fn b_{hn}<S: Src, R>(s: &mut S, k: impl FnOnce(SV<'_>, bool) -> R) -> R {{
+    // all envelope choices are drawn first; the data payload is built by the response builder afterwards
+    let (a0, a1, a2, a3) = (s.i64() as i32 as i64, s.i64() as i32 as i64, s.i64() as i32 as i64, s.i64() as i32 as i64);
+    let nloc = s.below(3) as usize;
+    let lk = match s.below(3) {{ 0 => K_ABSENT, 1 => K_NULL, _ => K_SEQ }};
+    let path_absent = s.bool();
+    let nerr = s.below(3) as usize;
+    let ek = match s.below(3) {{ 0 => K_ABSENT, 1 => K_NULL, _ => K_SEQ }};
+    let dk = s.below(3);
+    let extra = s.bool();
+    b_{bn}(s, |data, conf| {{
+        // locations: absent | null | list of 0..2 entries with symbolic i32 line / column (+ an unknown member)
+        let l0 = [("line", SV::int(a0)), ("column", SV::int(a1)), ("zz", SV::int(0))];
+        let l1 = [("line", SV::int(a2)), ("column", SV::int(a3)), ("zz", SV::int(0))];
+        let locs = [SV::map(&l0), SV::map(&l1)];
+        let loc_sv = SV {{ kind: lk, b: true, i: 7, f: 0.5, s: "x", seq: &locs[..nloc], map: &[] }};
+        let e0 = [("message", SV::str("boom")), ("locations", loc_sv), ("path", if path_absent {{ SV::absent() }} else {{ SV::null() }}), ("extensions", {ext_sv}), ("zz", SV::int(1))];
+        let e1 = [("message", SV::str("")), ("locations", SV::absent()), ("path", SV::absent()), ("extensions", SV::absent()), ("zz", SV::absent())];
+        let errs = [SV::map(&e0), SV::map(&e1)];
+        let err_sv = SV {{ kind: ek, b: true, i: 7, f: 0.5, s: "x", seq: &errs[..nerr], map: &[] }};
+        // data: the conforming / corrupted payload, or null, or absent
+        let data_sv = match dk {{ 0 => SV::absent(), 1 => SV::null(), _ => data }};
+        let body = [("data", data_sv), ("errors", err_sv), ("extensions", {ext_sv}), ("zz", if extra {{ SV::int(2) }} else {{ SV::absent() }})];
+        k(SV::map(&body), conf || dk < 2)
+    }})
+}}
+
+#[cfg(kani)]
+#[kani::proof]
+#[kani::unwind({unwind})]
+fn k_{prop}_{hn}() {{
+    let (v, conf) = b_{hn}(&mut KaniSrc, |sv, c| (check_roundtrip::<graphql_client::Response<{t}>>(sv, c, false), c));
+    kani::cover!(conf && v == Verdict::Ok, "witness_body_roundtrip");
+    assert!(!conf || v == Verdict::Ok);
+}}
+''')
+                    self.harnesses.append(dict(name=f'k_{prop}_{hn}', prop=prop, kind='envelope', entry=entry['name'], native=f'n_{hn}',
+                                               what=f'Response<{op.name}::ResponseData>, extensions {ext}', covers=1, unwind=unwind))
+                    self.native.append((f'n_{hn}', f'''b_{hn}(src, |sv, c| {{
+    let model = check_roundtrip::<graphql_client::Response<{t}>>(sv, c, false);
+    let (real, detail) = check_roundtrip_native::<graphql_client::Response<{t}>>(sv, c, false);
+    let fix = |v: Verdict| if !c && v == Verdict::AcceptedInvalid || !c && v == Verdict::Ok {{ "Ok".to_string() }} else {{ format!("{{:?}}", v) }};
+    (fix(model), fix(real), detail)
+}})'''))
+
     def tpath(self, entry, variant, op, item):
         return f'crate::m_{entry["name"]}_{variant}::{gen.snake(op.name)}::{item}'
 
@@ -297,12 +411,22 @@ fn k_{prop}_dist_{hn}() {{
     (if ok {{ "Ok".into() }} else {{ "NotDistinct".into() }}, if ok {{ "Ok".into() }} else {{ "NotDistinct".into() }}, String::new())
 }}'''))
 
+    def ops_for(self, entry, kind):
+        ops = entry['_ops']
+        skip = entry.get(f'no_{kind}', [])
+        ops = [o for o in ops if o.name not in skip and skip != 'all']
+        if skip == 'all':
+            return []
+        if self.tier == 'quick' and entry.get('thorough_ops'):
+            ops = [o for o in ops if o.name not in entry['thorough_ops']]
+        return ops
+
     def add_response_harnesses(self, props, variants):
         """props: dict prop -> rust predicate over Verdict `v` that must hold"""
         for entry in self.entries:
             schema, doc = entry['_schema'], entry['_doc']
             b = gen.Builder(schema, doc, entry, self.tier)
-            for op in entry['_ops']:
+            for op in self.ops_for(entry, 'response'):
                 bn = f'resp_{entry["name"]}_{gen.snake(op.name)}'
                 try:
                     code, sites = b.response_builder(op, f'b_{bn}')
@@ -341,7 +465,7 @@ fn k_{prop}_{hn}() {{
         for entry in self.entries:
             schema, doc = entry['_schema'], entry['_doc']
             b = gen.Builder(schema, doc, entry, self.tier)
-            for op in entry['_ops']:
+            for op in self.ops_for(entry, 'variables'):
                 if not op.vars:
                     continue
                 for variant in variants(entry):
@@ -403,6 +527,11 @@ use vsup::*;
 use vchecks::*;
 
 pub static WRONG_SEQ: [SV<'static>; 1] = [SV::int(1)];
+
+/// custom scalar definitions used through `custom_scalars_module` (variant `opts`)
+pub mod kg_scalars {{
+{self.scalar_mod()}
+}}
 
 {"".join(self.mods)}
 {extra_rs}
